@@ -133,6 +133,13 @@ def edit_vector(rng, s):
     if kind == "drop_prefix" and s.startswith("CVSS:"):
         return kind, s.split("/", 1)[1]
     if kind == "wrong_minor" and s.startswith("CVSS:"):
+        if rng.chance(0.3):
+            # a decimal digit from outside ASCII in the version (what `\\d`, int() and str.isdigit() take for
+            # a digit depends on the interpreter's Unicode data base: Kawi is known to 3.12+, the segmented
+            # digits to 3.9+, Wancho to 3.8+, Hanifi Rohingya to 3.7+, fullwidth / Arabic-Indic to every 3.x)
+            d = rng.choice([u"\uff11", u"\uff10", u"\u0660", u"\u0661", u"\U00010d31", u"\U0001e2f1", u"\U0001fbf1", u"\U00011f51", u"\U00011f50"])
+            major = s[5:6] if len(s) > 6 else "3"
+            return kind, rng.choice(["CVSS:%s.%s/" % (major, d), "CVSS:%s.0/" % (u"\uff13" if major == "3" else u"\uff14")]) + s.split("/", 1)[1]
         return kind, rng.choice(["CVSS:3.2/", "CVSS:4.1/", "CVSS:3/", "CVSS:2.0/", "cvss:3.1/", "CVSS:3.1", "CVSS:3.10/"]) + s.split("/", 1)[1]
     if kind == "swap_colon":
         i = rng.below(len(fields))
